@@ -1,5 +1,224 @@
-//! C12 — not implemented yet.
+//! C12 — subgroup membership tests and cofactor clearing agree with their definitions.
+mod common;
+mod sw;
+mod te;
+
+use ark_ec::short_weierstrass::SWCurveConfig;
+use ark_ec::twisted_edwards::TECurveConfig;
+use ark_ff::PrimeField;
+use common::*;
+use std::sync::Arc;
+use vh_core::curve::{sw_enumerate, sw_to_affine, te_enumerate};
+use vh_core::engine::{PropSpec, Rel, Tier};
+
+fn mix(a: u64, b: u64) -> u64 {
+    let mut z = a.wrapping_mul(0x9e3779b97f4a7c15) ^ b.wrapping_mul(0xbf58476d1ce4e5b9);
+    z ^= z >> 29;
+    z = z.wrapping_mul(0x94d049bb133111eb);
+    z ^ (z >> 32)
+}
+
+/// which integer the documentation promises for `clear_cofactor`
+enum Doc {
+    /// trait default: the cofactor
+    Cofactor,
+    /// a typed constant
+    Int(&'static str, &'static str),
+    /// a value computed from typed constants
+    Value(num_bigint::BigUint, &'static str),
+    /// nothing documented: only the structural checks apply
+    #[allow(dead_code)]
+    None,
+}
+
+fn sw_rels<P: SWCurveConfig>(out: &mut Vec<Rel>, name: &str, tier: Tier, weight: u32, doc: Doc) {
+    let h = sw::cofactor_of::<P>();
+    let (c, c_doc) = match doc {
+        Doc::Cofactor => (Some(h.clone()), "COFACTOR"),
+        Doc::Int(hex, what) => (Some(hexbig(hex)), what),
+        Doc::Value(v, what) => (Some(v), what),
+        Doc::None => (None, "none"),
+    };
+    let ctx = Arc::new(sw::SwCtx::<P> { name: name.to_string(), r: modulus_of::<P::ScalarField>(), h, c, c_doc, src: sw::shipped_src::<P>(), do_rand: true });
+    let q = |n: u32, heavy: u32| if weight == 0 { tier.pick(heavy, heavy * 10) } else { tier.pick(n, n * 20) * weight / 4 };
+    let cc = ctx.clone();
+    out.push(Rel::new(format!("member/{}", name), q(150, 6), 40, move |t, o| sw::member::<P>(&cc, t, o)).shrink_iters(200));
+    let cc = ctx.clone();
+    out.push(Rel::new(format!("clear/{}", name), q(60, 2), 64, move |t, o| sw::clear::<P>(&cc, t, o)).shrink_iters(100));
+    let cc = ctx.clone();
+    out.push(Rel::new(format!("rand/{}", name), q(100, 1), 2, move |t, o| sw::rand::<P>(&cc, t, o)).shrink_iters(50));
+    let cc = ctx.clone();
+    out.push(Rel::new(format!("consts/{}", name), 0, 1, move |t, o| sw::consts::<P>(&cc, t, o)).exhaustive(|| Box::new(std::iter::once(vec![0u64]))));
+}
+
+fn te_rels<P: TECurveConfig>(out: &mut Vec<Rel>, name: &str, tier: Tier, weight: u32) {
+    let ctx = Arc::new(te::TeCtx::<P> {
+        name: name.to_string(),
+        r: modulus_of::<P::ScalarField>(),
+        h: vh_core::modint::big(P::COFACTOR),
+        complete: te::te_complete::<P>(),
+        src: te::shipped_src::<P>(),
+        do_rand: true,
+    });
+    let q = |n: u32, heavy: u32| if weight == 0 { tier.pick(heavy, heavy * 10) } else { tier.pick(n, n * 20) * weight / 4 };
+    let cc = ctx.clone();
+    out.push(Rel::new(format!("member/{}", name), q(150, 5), 40, move |t, o| te::member::<P>(&cc, t, o)).shrink_iters(200));
+    let cc = ctx.clone();
+    out.push(Rel::new(format!("clear/{}", name), q(60, 2), 64, move |t, o| te::clear::<P>(&cc, t, o)).shrink_iters(100));
+    let cc = ctx.clone();
+    out.push(Rel::new(format!("rand/{}", name), q(80, 1), 2, move |t, o| te::rand::<P>(&cc, t, o)).shrink_iters(50));
+    let cc = ctx.clone();
+    out.push(Rel::new(format!("consts/{}", name), 0, 1, move |t, o| te::consts::<P>(&cc, t, o)).exhaustive(|| Box::new(std::iter::once(vec![0u64]))));
+}
+
+fn toy_sw<P: SWCurveConfig>(out: &mut Vec<Rel>, name: &str, tier: Tier, big: bool)
+where
+    P::BaseField: PrimeField,
+{
+    let pts: Arc<Vec<_>> = Arc::new(sw_enumerate(&P::COEFF_A, &P::COEFF_B).iter().map(|p| sw_to_affine::<P>(p)).collect());
+    let n = pts.len() as u64;
+    let pp = pts.clone();
+    let src: sw::Src<P> = Arc::new(move |t| (pp[t.idx(pp.len())], "P=toy-point"));
+    let h = sw::cofactor_of::<P>();
+    let ctx = Arc::new(sw::SwCtx::<P> { name: name.to_string(), r: modulus_of::<P::ScalarField>(), h: h.clone(), c: Some(h), c_doc: "COFACTOR", src, do_rand: true });
+    let cc = ctx.clone();
+    out.push(Rel::new(format!("member/toy.{}", name), 0, 1, move |t, o| sw::member::<P>(&cc, t, o)).exhaustive(move || Box::new((0..n).map(|i| vec![i]))));
+    let cc = ctx.clone();
+    // all ordered pairs (P, Q) (a band of Q for the ~1000-point curves), scalar 2..9 from the pair
+    let band = if big { 24 } else { n };
+    out.push(
+        Rel::new(format!("clear/toy.{}", name), tier.pick(500, 5000), 8, move |t, o| sw::clear::<P>(&cc, t, o))
+            .exhaustive(move || Box::new((0..n).flat_map(move |i| (0..band).map(move |j| vec![i, (i + j) % n, 0, mix(i, j)])))),
+    );
+    let cc = ctx.clone();
+    out.push(Rel::new(format!("rand/toy.{}", name), tier.pick(250, 2500), 2, move |t, o| sw::rand::<P>(&cc, t, o)));
+    let cc = ctx.clone();
+    out.push(Rel::new(format!("consts/toy.{}", name), 0, 1, move |t, o| sw::consts::<P>(&cc, t, o)).exhaustive(|| Box::new(std::iter::once(vec![0u64]))));
+}
+
+fn toy_te<P: TECurveConfig>(out: &mut Vec<Rel>, name: &str, tier: Tier, complete: bool, big: bool)
+where
+    P::BaseField: PrimeField,
+{
+    let pts = Arc::new(te_enumerate(&P::COEFF_A, &P::COEFF_D));
+    let n = pts.len() as u64;
+    let pp = pts.clone();
+    let src: te::Src<P> = Arc::new(move |t| (pp[t.idx(pp.len())], "P=toy-point"));
+    assert_eq!(complete, te::te_complete::<P>(), "completeness flag of toy curve {}", name);
+    let ctx = Arc::new(te::TeCtx::<P> { name: name.to_string(), r: modulus_of::<P::ScalarField>(), h: vh_core::modint::big(P::COFACTOR), complete, src, do_rand: complete });
+    let cc = ctx.clone();
+    out.push(Rel::new(format!("member/toy.{}", name), 0, 1, move |t, o| te::member::<P>(&cc, t, o)).exhaustive(move || Box::new((0..n).map(|i| vec![i]))));
+    let cc = ctx.clone();
+    let band = if big { 24 } else { n };
+    out.push(
+        Rel::new(format!("clear/toy.{}", name), tier.pick(500, 5000), 8, move |t, o| te::clear::<P>(&cc, t, o))
+            .exhaustive(move || Box::new((0..n).flat_map(move |i| (0..band).map(move |j| vec![i, (i + j) % n, 0, mix(i, j)])))),
+    );
+    if complete {
+        // `rand` multiplies an arbitrary point of the curve by the cofactor: only meaningful where the law is complete
+        let cc = ctx.clone();
+        out.push(Rel::new(format!("rand/toy.{}", name), tier.pick(250, 2500), 2, move |t, o| te::rand::<P>(&cc, t, o)));
+    }
+    let cc = ctx.clone();
+    out.push(Rel::new(format!("consts/toy.{}", name), 0, 1, move |t, o| te::consts::<P>(&cc, t, o)).exhaustive(|| Box::new(std::iter::once(vec![0u64]))));
+}
+
+// RFC 9380, section 8.8.1 (BLS12381G1_XMD:SHA-256_SSWU_RO_): h_eff = 0xd201000000010001
+const BLS12_381_G1_H_EFF: &str = "d201000000010001";
+// RFC 9380, section 8.8.2 (BLS12381G2_XMD:SHA-256_SSWU_RO_): h_eff
+const BLS12_381_G2_H_EFF: &str = "bc69f08f2ee75b3584c6a0ea91b352888e2a8e9145ad7689986ff031508ffe1329c2f178731db956d82bf015d1212b02ec0ec69d7477c1ae954cbc06689f6a359894c0adebbf6b4e8020005aaa95551";
+// curves/bls12_377/src/curves/g1.rs: "It is enough to multiply by (x - 1)", x = 0x8508c00000000001
+const BLS12_377_X_MINUS_1: &str = "8508c00000000000";
+
+fn relations(tier: Tier) -> Vec<Rel> {
+    let mut out = Vec::new();
+    let thorough = tier == Tier::Thorough;
+    // the heaviest first
+    sw_rels::<ark_mnt6_753::g2::Config>(&mut out, "mnt6_753.G2", tier, 0, Doc::Cofactor);
+    sw_rels::<ark_mnt4_753::g2::Config>(&mut out, "mnt4_753.G2", tier, 0, Doc::Cofactor);
+    sw_rels::<ark_cp6_782::g2::Config>(&mut out, "cp6_782.G2", tier, 0, Doc::Cofactor);
+    te_rels::<ark_ed_on_mnt4_753::EdwardsConfig>(&mut out, "ed_on_mnt4_753", tier, 0);
+    sw_rels::<ark_cp6_782::g1::Config>(&mut out, "cp6_782.G1", tier, 1, Doc::Cofactor);
+    sw_rels::<ark_bw6_761::g1::Config>(&mut out, "bw6_761.G1", tier, 1, Doc::Cofactor);
+    sw_rels::<ark_bw6_761::g2::Config>(&mut out, "bw6_761.G2", tier, 1, Doc::Cofactor);
+    sw_rels::<ark_bw6_767::g1::Config>(&mut out, "bw6_767.G1", tier, 1, Doc::Cofactor);
+    sw_rels::<ark_bw6_767::g2::Config>(&mut out, "bw6_767.G2", tier, 1, Doc::Cofactor);
+    sw_rels::<ark_mnt6_298::g2::Config>(&mut out, "mnt6_298.G2", tier, 2, Doc::Cofactor);
+    sw_rels::<ark_mnt4_298::g2::Config>(&mut out, "mnt4_298.G2", tier, 2, Doc::Cofactor);
+    te_rels::<ark_bls12_377::g1::Config>(&mut out, "bls12_377.G1.TE", tier, 1);
+    te_rels::<ark_ed_on_cp6_782::EdwardsConfig>(&mut out, "ed_on_cp6_782", tier, 1);
+    sw_rels::<ark_bls12_381::g2::Config>(&mut out, "bls12_381.G2", tier, 2, Doc::Int(BLS12_381_G2_H_EFF, "h_eff(RFC9380-8.8.2)"));
+    sw_rels::<ark_test_curves::bls12_381::g2::Config>(&mut out, "test.bls12_381.G2", tier, 2, Doc::Int(BLS12_381_G2_H_EFF, "h_eff(RFC9380-8.8.2)"));
+    // BLS12-377 G2 documents no integer; the Budroni-Pintore map used there equals [h2 (3 x^2 - 3)] for every BLS12 curve
+    // (the formula RFC 9380 section 8.8.2 gives for h_eff), x = 0x8508c00000000001
+    let x377 = hexbig("8508c00000000001");
+    let heff377 = sw::cofactor_of::<ark_bls12_377::g2::Config>() * ((&x377 * &x377 - 1u32) * 3u32);
+    sw_rels::<ark_bls12_377::g2::Config>(&mut out, "bls12_377.G2", tier, 2, Doc::Value(heff377, "h2(3x^2-3)"));
+    sw_rels::<ark_bn254::g2::Config>(&mut out, "bn254.G2", tier, 2, Doc::Cofactor);
+    sw_rels::<ark_bls12_381::g1::Config>(&mut out, "bls12_381.G1", tier, 4, Doc::Int(BLS12_381_G1_H_EFF, "h_eff(RFC9380-8.8.1)=1-x"));
+    sw_rels::<ark_test_curves::bls12_381::g1::Config>(&mut out, "test.bls12_381.G1", tier, 4, Doc::Int(BLS12_381_G1_H_EFF, "h_eff(RFC9380-8.8.1)=1-x"));
+    sw_rels::<ark_bls12_377::g1::Config>(&mut out, "bls12_377.G1", tier, 4, Doc::Int(BLS12_377_X_MINUS_1, "x-1"));
+    sw_rels::<ark_bn254::g1::Config>(&mut out, "bn254.G1", tier, 4, Doc::Cofactor);
+    sw_rels::<ark_ed_on_bls12_381::JubjubConfig>(&mut out, "ed_on_bls12_381.SW", tier, 4, Doc::Cofactor);
+    sw_rels::<ark_ed_on_bls12_381_bandersnatch::BandersnatchConfig>(&mut out, "bandersnatch.SW", tier, 4, Doc::Cofactor);
+    te_rels::<ark_ed_on_bls12_381::JubjubConfig>(&mut out, "ed_on_bls12_381", tier, 2);
+    te_rels::<ark_ed_on_bls12_381_bandersnatch::BandersnatchConfig>(&mut out, "bandersnatch", tier, 2);
+    te_rels::<ark_ed_on_bls12_377::EdwardsConfig>(&mut out, "ed_on_bls12_377", tier, 2);
+    te_rels::<ark_ed_on_bn254::EdwardsConfig>(&mut out, "ed_on_bn254", tier, 2);
+    te_rels::<ark_ed_on_mnt4_298::EdwardsConfig>(&mut out, "ed_on_mnt4_298", tier, 2);
+    te_rels::<ark_ed25519::EdwardsConfig>(&mut out, "ed25519", tier, 2);
+    te_rels::<ark_curve25519::Curve25519Config>(&mut out, "curve25519", tier, 2);
+    te_rels::<ark_test_curves::ed_on_bls12_381::EdwardsConfig>(&mut out, "test.ed_on_bls12_381", tier, 2);
+
+    macro_rules! tsw {
+        ($cfg:ty, $name:expr, $p:expr, $a:expr, $b:expr, $h:expr, $r:expr, $big:expr) => {
+            if !$big || thorough {
+                toy_sw::<$cfg>(&mut out, $name, tier, $big);
+            }
+        };
+    }
+    vh_core::for_each_toy_sw!(tsw);
+    macro_rules! tte {
+        ($cfg:ty, $name:expr, $p:expr, $a:expr, $d:expr, $h:expr, $r:expr, $complete:expr, $big:expr) => {
+            if !$big || thorough {
+                toy_te::<$cfg>(&mut out, $name, tier, $complete, $big);
+            }
+        };
+    }
+    vh_core::for_each_toy_te!(tte);
+    // the typed RFC constants are tied to the repository's COFACTOR constants by the RFC's own formulas
+    out.push(
+        Rel::new("consts/rfc9380.h_eff", 0, 1, |_t, o| {
+            use vh_core::ensure;
+            let z = hexbig("d201000000010000"); // |z|, z = -0xd201000000010000 (RFC 9380 section 8.8)
+            let h1 = sw::cofactor_of::<ark_bls12_381::g1::Config>();
+            let h2 = sw::cofactor_of::<ark_bls12_381::g2::Config>();
+            o.show(|| format!("BLS12-381: h1=0x{:x} h2=0x{:x}", h1, h2));
+            o.nt(true);
+            o.evals(4);
+            // h_eff(G1) = 1 - z, h1 = (z - 1)^2 / 3
+            ensure!(hexbig(BLS12_381_G1_H_EFF) == &z + 1u32, "h_eff.g1", "typed G1 h_eff is not 1 - z");
+            ensure!(&h1 * 3u32 == (&z + 1u32) * (&z + 1u32), "cofactor.g1", "COFACTOR of G1 is not (z-1)^2/3");
+            // h_eff(G2) = h2 * (3 z^2 - 3)
+            ensure!(hexbig(BLS12_381_G2_H_EFF) == &h2 * ((&z * &z - 1u32) * 3u32), "h_eff.g2", "typed G2 h_eff is not h2 * (3 z^2 - 3) for the repository's COFACTOR");
+            ensure!(sw::cofactor_of::<ark_test_curves::bls12_381::g2::Config>() == h2 && sw::cofactor_of::<ark_test_curves::bls12_381::g1::Config>() == h1, "cofactor.test-curves", "test-curves and curves/bls12_381 disagree on a cofactor");
+            Ok(())
+        })
+        .exhaustive(|| Box::new(std::iter::once(vec![0u64]))),
+    );
+    out
+}
+
 fn main() {
-    eprintln!("C12: check not implemented");
-    std::process::exit(2);
+    vh_core::engine::main(PropSpec {
+        id: "C12",
+        rule: "Points of the whole curve: the first point with abscissa >= an arbitrary x (short Weierstrass) / ordinate >= an arbitrary y (twisted Edwards) - outside the prime-order subgroup with probability 1-1/h -, points of small prime order (r·h/l)·R for every prime l < 2000 dividing the cofactor, the cofactor-torsion component r·R, sums of a subgroup point and such a point, subgroup points s·G, G and the identity; toy curves: every point (membership) and every ordered pair (clearing). Oracles: membership <=> r·P = O with a right-to-left double-and-add over +/double (SW) or the affine Edwards-law oracle (TE), never mul_bigint; clear_cofactor(P) is on the curve, killed by r, accepted by the membership test, equals [c]P for the documented integer (COFACTOR by default; 1-x = RFC 9380 h_eff for BLS12-381 G1, x-1 for BLS12-377 G1, RFC 9380 h_eff for BLS12-381 G2, typed from the documents), is additive and commutes with scalars; mul_by_cofactor = [h]P; mul_by_cofactor_inv undoes mul_by_cofactor on the subgroup; COFACTOR·COFACTOR_INV = 1 mod r; clear_cofactor(G) != O; rand samples (StdRng seeded from the tape) are on the curve and killed by r. A case is non-trivial when the point is on the curve and outside the prime-order subgroup (constants / rand: when the cofactor is > 1); distinct = distinct decoded choice sequences.",
+        assumptions: &[
+            "the group law (+, double, ==, into_affine) is correct on the inputs used (property C03); twisted-Edwards curves use the independent affine oracle instead",
+            "get_point_from_x_unchecked / get_point_from_y_unchecked are only used as a point source; every generated point is re-checked against the curve equation by the harness",
+            "twisted-Edwards curves with an incomplete addition law (a non-square or d square): a case is judged only when the oracle's addition chain meets no exceptional pair; `rand` is not judged on the incomplete toy curves",
+            "BLS12-377 G2 documents no integer for its endomorphism-based clearing: only subgroup/additivity/scalar/non-vanishing checks apply there",
+        ],
+        relations,
+    })
 }
